@@ -51,3 +51,6 @@ const RaceBuild = sched.RaceBuild
 
 // IsAbort reports whether a recovered panic belongs to the scheduler.
 func IsAbort(p interface{}) bool { return sched.IsAbort(p) }
+
+// Invisible runs harness bookkeeping without leaving synchronisation events for the race detector.
+func Invisible(f func()) { sched.Invisible(f) }
